@@ -222,6 +222,19 @@ pub fn check(mut ctx: Ctx, replay: Option<J>) -> ! {
   ctx.cov("random_histories", json!(n_hist));
   ctx.cov("random_history_length", json!(len));
   let total = runs.len();
+  // anti-vacuity: a corrupted copy of a recorded trace must be rejected by the specification
+  {
+    let (_, evs) = runs.iter().find(|(_, e)| e.iter().any(|x| x["byNm"].as_array().map(|a| !a.is_empty()).unwrap_or(false))).unwrap_or_else(|| tool_error("no trace to corrupt"));
+    let mut bad = evs.clone();
+    let k = bad.iter().position(|x| x["byNm"].as_array().map(|a| !a.is_empty()).unwrap_or(false)).unwrap();
+    bad[k]["byNm"].as_array_mut().unwrap().remove(0);
+    let file = tlc.write_ndjson("trace_corrupt.ndjson", &bad);
+    let out = tlc.run(Run::new("Trace_C17", "Trace_C17.cfg").env("TRACE", &file.to_string_lossy()).deque().timeout(300).tag("_corrupt"));
+    if !out.ok || out.rejects().is_empty() {
+      tool_error("self-test failed: Trace_C17 accepted a corrupted trace");
+    }
+    ctx.cov("corrupted_trace_rejected", json!(true));
+  }
   judge(&mut ctx, &tlc, runs, "main");
   ctx.cov("traces_validated_against_impl", json!(total));
   ctx.cov("exhaustive", json!(true));
